@@ -196,13 +196,21 @@ def oracle_for(pid: str):
             if f['prop'] in props:
                 add(f['key'], f['detail'], doc['histories'][f['history']], f['index'], doc['names'][f['history']])
         if budget > 1:
-            # a proof or the tie broke: search further histories for a concrete failing one
-            drv = ctx.run_impl('batchdb_driven.py', {'seed': ctx.seed + 7919, 'n': ctx.scale(120, 1200), 'props': sorted(props)}, timeout=3000)
-            for h in drv['histories']:
-                n_hist += 1
-                n_ops += len(h)
-            for f in drv['failures']:
-                add(f['key'], f['detail'], drv['histories'][f['history']], f['index'], f"search:{ctx.seed + 7919}:{f['history']}")
+            # a proof or the tie broke: search further histories for a concrete failing one — within a time box, so that the
+            # VIOLATION line (with or without a failing input) is always printed in reasonable time
+            deadline = time.time() + ctx.scale(300, 1800)
+
+            def left():
+                return max(20, int(deadline - time.time()))
+            try:
+                drv = ctx.run_impl('batchdb_driven.py', {'seed': ctx.seed + 7919, 'n': ctx.scale(40, 600), 'props': sorted(props)}, timeout=left())
+                for h in drv['histories']:
+                    n_hist += 1
+                    n_ops += len(h)
+                for f in drv['failures']:
+                    add(f['key'], f['detail'], drv['histories'][f['history']], f['index'], f"search:{ctx.seed + 7919}:{f['history']}")
+            except core.ImplCrash as e:
+                keys_seen['search-error:driven:' + str(e)[:60]] = 1
             # the free-mode histories of the tie (duplicate, late and reordered messages) restricted to their GOOD sub-history
             # by the model's executable legality filter (BatchDB/LegalFilter.v) — first those on which the tie disagreed
             try:
@@ -217,8 +225,10 @@ def oracle_for(pid: str):
                         cand.append(hh)
                         names.append(name)
                 cand, names = cand[:ctx.scale(80, 700)], names[:ctx.scale(80, 700)]
+                if time.time() > deadline:
+                    raise core.ImplCrash('search', -9, 'time box used up')
                 good = C.legal_filtered(ctx, cand)
-                res = C.run_impl(ctx, good, 'all')
+                res = C.run_impl(ctx, good, 'all', timeout=left())
                 for name, hh, ents in zip(names, good, res['results']):
                     n_hist += 1
                     n_ops += len(hh)
@@ -242,7 +252,7 @@ def oracle_for(pid: str):
                 need = [c for c in cand if c[2] is None]
                 if need:
                     try:
-                        res = C.run_impl(ctx, [c[1] for c in need], 'all')
+                        res = C.run_impl(ctx, [c[1] for c in need], 'all', timeout=left())
                         it = iter(res['results'])
                         cand = [(n, hh, e if e is not None else next(it)) for n, hh, e in cand]
                     except core.ImplCrash:
